@@ -1,5 +1,5 @@
 #!/usr/bin/env python3
-"""install_seeds.py <srcroot>   (srcroot/<PROP>/<N>/{patch.diff,meta.json,demo*,inputs})
+"""install_seeds.py <srcroot> [number offset] [PROP,PROP..]   (srcroot/<PROP>/<N>/{patch.diff,meta.json,demo*,inputs})
 
 Copies sub-agent mutants into /verif/seeded/<PROP>-<N>/, re-basing each patch onto /repo's HEAD
 (3-way apply in a scratch worktree, then `git diff`) so that `git apply` works on the current tree.
@@ -14,6 +14,8 @@ import tempfile
 
 VERIF = os.path.dirname(os.path.dirname(os.path.abspath(__file__)))
 src = sys.argv[1]
+offset = int(sys.argv[2]) if len(sys.argv) > 2 else 0
+only = sys.argv[3].split(",") if len(sys.argv) > 3 else None
 
 
 def sh(*a, **k):
@@ -25,7 +27,9 @@ for prop in sorted(os.listdir(src)):
         d = os.path.join(src, prop, n)
         if not os.path.isfile(os.path.join(d, "patch.diff")):
             continue
-        sid = "%s-%s" % (prop, n)
+        if not n.isdigit() or (only and prop not in only):
+            continue
+        sid = "%s-%d" % (prop, int(n) + offset)
         dst = os.path.join(VERIF, "seeded", sid)
         wt = tempfile.mkdtemp(prefix="seedinst.")
         os.rmdir(wt)
